@@ -70,7 +70,7 @@ def gen_case(r: Any, idx: int) -> dict:
     hot = r.random() < 0.4
     tl = gen_timeline(r, domain, maxlen=7, uniq=[0])
     n = sum(1 for m in tl if m[1] == "N")
-    P: dict = {"sched": r.choice(["arg", "sub"]), "d": r.choice(DURS)}
+    P: dict = {"sched": r.choice(["arg", "sub", "both"]), "d": r.choice(DURS)}
     if op in ("take_until_with_time", "skip_until_with_time"):
         P["shape"] = r.choice(["int", "float", "td", "abs", "abs"])
         if P["shape"] == "abs" and r.random() < 0.12:
@@ -94,7 +94,7 @@ def gen_case(r: Any, idx: int) -> dict:
 def build(case: dict, lab: Lab, src: Any) -> Any:
     op, P = case["op"], case["P"]
     T.arm(lab)
-    sch = lab.ts if P.get("sched") == "arg" else None
+    sch = lab.ts if P.get("sched") in ("arg", "both") else None
     if op == "timeout_with_mapper":
         calls = [0]
 
@@ -332,7 +332,8 @@ def run_last_pair(case: dict, seed: int, idx: int, res: UnitResult, desc: dict) 
     eq_only = True
     for tag, tline in runs:
         msgs, seen = make_input(case_rng(seed, ID, idx, "input"), tline, case["hot"])
-        lab, obs, src = run_single(lambda lab, s: build(case, lab, s), msgs, case["hot"], clock=case["clock"])
+        lab, obs, src = run_single(lambda lab, s: build(case, lab, s), msgs, case["hot"], clock=case["clock"],
+                                   sub_scheduler=T.frozen_scheduler if case["P"].get("sched") == "both" else None)
         if T.spun(lab):
             res.violation("C17:%s:same-instant-livelock" % op, {"case": desc, "run": tag}, {"seed": seed, "idx": idx})
             return
@@ -404,7 +405,8 @@ def run_case(seed: int, idx: int, res: UnitResult) -> None:
         run_last_pair(case, seed, idx, res, desc)
         return
     msgs, seen = make_input(r, case["tl"], case["hot"])
-    lab, obs, src = run_single(lambda lab, s: build(case, lab, s), msgs, case["hot"], clock=case["clock"])
+    lab, obs, src = run_single(lambda lab, s: build(case, lab, s), msgs, case["hot"], clock=case["clock"],
+                                   sub_scheduler=T.frozen_scheduler if case["P"].get("sched") == "both" else None)
     if T.spun(lab):
         res.count("same_instant_livelocks")
         res.case(key=desc, nontrivial=False)
